@@ -91,11 +91,31 @@ Theorem closing_history :
 Proof. exact closing_history_lemma. Qed.
 
 (** [extensions::stream_body] announces exactly the bytes its future sends - for every file content and every
-    request (any Range header). *)
-Theorem stream_body_announces : forall (content : bytes) (r : request),
-  fst (stream_body_future true content r)
-  = Some (N.of_nat (length (concat (snd (stream_body_future true content r))))).
+    request (any Range header) that it answers with a stream ... *)
+Theorem stream_body_announces : forall (content : bytes) (r : request) (f : option N * list bytes),
+  stream_body_future true content r = Some f ->
+  fst f = Some (N.of_nat (length (concat (snd f)))).
 Proof. exact stream_body_announces_lemma. Qed.
+
+(** ... and the only requests it does not answer with a stream are those whose range starts at or after the end
+    of the file: they get the 416 page, which has no future (d675f8a). *)
+Theorem stream_body_refuses : forall (content : bytes) (r : request),
+  stream_body_future true content r = None <->
+  exists s e, sanitize_range (header (B "range") r) = Ok (Some (s, e)) /\ N.of_nat (length content) <= s.
+Proof. exact stream_body_refuses_lemma. Qed.
+
+(** A request with a range (start < end, which is how [sanitize_request] hands a range over) that is answered with
+    a stream gets 206 and a [content-range] that names exactly the bytes the future sends - at least one - out of
+    the whole file (d675f8a; before, it got 200 without [content-range]). *)
+Theorem stream_body_content_range : forall (content : bytes) (r : request) (s e0 : N) (f : option N * list bytes),
+  stream_body_range r = Some (s, e0) -> s < e0 ->
+  stream_body_future true content r = Some f ->
+  let n := N.of_nat (length (concat (snd f))) in
+  0 < n /\
+  stream_body_head content r
+  = (206, [(B "content-range", B "bytes " ++ dec s ++ B "-" ++ dec (s + n - 1) ++ B "/" ++ dec (N.of_nat (length content)))]) /\
+  concat (snd f) = firstn (N.to_nat n) (skipn (N.to_nat s) content).
+Proof. exact stream_body_content_range_lemma. Qed.
 
 (** The connection: for every history of polite requests (any methods, any handlers' replies and use of the
     request body, any split of each body between the head's segment and later, any mix of passed and
@@ -229,8 +249,8 @@ Theorem te_with_length_v0_refuted :
 Proof. exact te_with_length_v0_witness. Qed.
 
 Theorem stream_body_range_v0_refuted :
-  exists content r, fst (stream_body_future false content r)
-                    <> Some (N.of_nat (length (concat (snd (stream_body_future false content r))))).
+  exists content r f, stream_body_future false content r = Some f /\
+                      fst f <> Some (N.of_nat (length (concat (snd f)))).
 Proof. exact stream_body_range_v0_witness. Qed.
 
 (** ---- non-vacuity ---- *)
@@ -291,21 +311,37 @@ Example ex_polite :
                  (B "0123456789") 4 APassed).
 Proof. unfold polite. split; [reflexivity|]. split; [discriminate|]. vm_compute. reflexivity. Qed.
 (** a history on a host with streaming handlers: GET and HEAD of a streamed file, a range reaching past its
-    end, then a stream of unknown length, after which the server closes *)
+    end (206, cut at the end), a range starting at its end (416; the range is then applied to that page), then
+    a stream of unknown length, after which the server closes *)
 Definition ex_scfg : c8cfg :=
   mkC8 (mkCfg true false true [] [] [] 500) [(B "/s/file.txt", B "streamed file content")] [] 0
        [(B "/s/file.txt", (0, 0, [])); (B "/st/nolen", (1, 0, [B "abc"; B "defg"]))].
 Definition ex_sreqs : list (c8req * bytes * nat) :=
   [ w_req (B "GET") (B "/s/file.txt") [] [] 0; w_req (B "HEAD") (B "/s/file.txt") [] [] 0;
-    w_req (B "GET") (B "/s/file.txt") [(B "range", B "bytes=9-999")] [] 0; w_req (B "GET") (B "/st/nolen") [] [] 0;
+    w_req (B "GET") (B "/s/file.txt") [(B "range", B "bytes=9-999")] [] 0;
+    w_req (B "GET") (B "/s/file.txt") [(B "range", B "bytes=21-23")] [] 0; w_req (B "GET") (B "/st/nolen") [] [] 0;
     w_req (B "GET") (B "/s/file.txt") [] [] 0 ].
 Example ex_closing_history :
-  c8_hyps_closing ex_scfg (c8_state0 ex_scfg) (with_actions 0 1 ex_sreqs) O = Some 4%nat /\
+  c8_hyps_closing ex_scfg (c8_state0 ex_scfg) (with_actions 0 1 ex_sreqs) O = Some 5%nat /\
   (let '(os, fin) := c8_run true true ex_scfg ex_sreqs in
-   statuses os = [Some 200; Some 200; Some 200; Some 200; None] /\ fin = Closed /\
-   option_map (map (fun p => (announced (p_headers p), p_body p)))
-     (parse_closing [M_GET; M_HEAD; M_GET; M_GET] (written os))
-   = Some [(Some 21, B "streamed file content"); (Some 21, []); (Some 12, B "file content"); (None, B "abcdefg")]).
+   statuses os = [Some 200; Some 200; Some 206; Some 416; Some 200; None] /\ fin = Closed /\
+   option_map (map (fun p => (announced (p_headers p), assoc (B "content-range") (p_headers p), p_body p)))
+     (parse_closing [M_GET; M_HEAD; M_GET; M_GET; M_GET] (written os))
+   = Some [(Some 21, None, B "streamed file content"); (Some 21, None, []);
+           (Some 12, Some (B "bytes 9-20/21"), B "file content"); (Some 3, Some (B "bytes 21-23/290"), B "<he");
+           (None, None, B "abcdefg")]).
+Proof. vm_compute. repeat split. Qed.
+(** [stream_body] on a 21-byte file: a range reaching past the end is cut (206, 12 bytes), a range starting at the end is
+    refused, no range streams the whole file *)
+Example ex_stream_body :
+  let c := B "streamed file content" in
+  let q v := d_request 0 (B "GET") (B "/s/file.txt") [(B "range", v)] in
+  stream_body_range (q (B "bytes=9-999")) = Some (9, 1000) /\
+  stream_body_future true c (q (B "bytes=9-999")) = Some (Some 12, [B "file content"]) /\
+  stream_body_head c (q (B "bytes=9-999")) = (206, [(B "content-range", B "bytes 9-20/21")]) /\
+  stream_body_future true c (q (B "bytes=21-23")) = None /\
+  stream_body_future true c (q (B "lines=1-2")) = Some (Some 21, [c]) /\
+  stream_body_head c (q (B "lines=1-2")) = (200, []).
 Proof. vm_compute. repeat split. Qed.
 (** TRACE (and CONNECT) declare no body to kvarn whatever their content-length says *)
 Example ex_trace_declares_nothing :
